@@ -470,9 +470,12 @@ ESCAPED_PAIRS = [
     ("^a\\x2ab$", "^[a-z*]+$"), ("^a\\u002ab$", "^[a-b*+]+$"), ("^\\x28a\\x29$", "^[()a]+$"), ("^a\\x7b2\\x7d$", "^[a{}2]+$"),
     ("^a\\x3fb?$", "^[?ab]+$"), ("^a\\x2bb$", "^[a+b]+$"), ("^[\\x5ea]+$", "^[a-z]+$"),
     ("^a\\x41b$", "^[a-zA-Z]+$"), ("^a\\.b$", "^[a-z.]+$"),
+    # the characters ^ and $ accepted somewhere in a pattern (a set, a dot, a complemented set): the anchors were handed to the
+    # intersection as ordinary characters and got mixed up with them (second repair of the XSD pattern pipeline)
+    ("^a[$]b$", "^[ -~]+$"), ("^.*a$", "^[a\\^]+$"), ("^.*$", "^[^x]*$"), ("^a\\x24$", "^[a$]+$"),
 ]
 
-_ESCAPE_POOL = ["a*b", "ab", "aab", "b", "(a)", "a", "a{2}", "aa", "a?b", "a?", "a+b", "a^", "^", "q", "aAb", "a.b", "axb", "aXb", "a*", "a(", "a2", "a?bb", "a+", "A"]
+_ESCAPE_POOL = ["a$b", "^a", "a^a", "a$", "$", "x", "a*b", "ab", "aab", "b", "(a)", "a", "a{2}", "aa", "a?b", "a?", "a+b", "a^", "^", "q", "aAb", "a.b", "axb", "aXb", "a*", "a(", "a2", "a?bb", "a+", "A"]
 
 _META = set("\\[]|().?*+{}^$-")
 _ESCAPE_RE = re.compile(r"\\\\|\\x([0-9a-fA-F]{2})|\\u([0-9a-fA-F]{4})|\\U([0-9a-fA-F]{8})")
